@@ -6,6 +6,7 @@ import (
 	"fmt"
 	"os"
 	"path/filepath"
+	"regexp"
 	"sort"
 	"strings"
 	"testing"
@@ -204,17 +205,77 @@ func judge(c Case) vdrv.Verdict {
 		}
 		return v
 	}
-	if hasLabel(c.Labels, "namespace-call") && strings.ReplaceAll(rt, ":recv", "") == strings.ReplaceAll(gt, ":recv", "") && strings.Count(rt, ":recv") > strings.Count(gt, ":recv") {
-		// known finding C02-namespace-call-receiver: `ns.f()` on a namespace import is bound statically
-		// and printed as `f()`, so the callee no longer receives the namespace object as `this`
-		v.Known = "C02-namespace-call-receiver"
-		return v
+	// Known deviations are recognised by normalising both traces for the deviation's class and comparing
+	// again; two classes may be present in one case, so the normalisations compose.
+	nrt, ngt, known := rt, gt, ""
+	if hasLabel(c.Labels, "namespace-call") && strings.Count(rt, ":recv") > strings.Count(gt, ":recv") {
+		// C02-namespace-call-receiver: `ns.f()` on a namespace import is bound statically and printed as
+		// `f()`, so the callee no longer receives the namespace object as `this`
+		nrt, ngt = strings.ReplaceAll(nrt, ":recv", ""), strings.ReplaceAll(ngt, ":recv", "")
+		known = "C02-namespace-call-receiver"
 	}
-	if c.Format == "esm" && hasLabel(c.Labels, "export-star-from-cjs") && stripExports(rt) == stripExports(gt) {
-		// known finding C02-esm-export-star-from-cjs: only the entry's export list differs
-		v.Known = "C02-esm-export-star-from-cjs"
+	if nrt != ngt && c.Format == "esm" && hasLabel(c.Labels, "export-star-from-cjs") {
+		// C02-esm-export-star-from-cjs: the names of a starred CommonJS module are missing from the
+		// export list of the entry and from the namespaces of the modules on the star path
+		cjs := cjsStarNames(c)
+		nrt, ngt = dropNames(stripExports(nrt), cjs), dropNames(stripExports(ngt), cjs)
+		if known == "" {
+			known = "C02-esm-export-star-from-cjs"
+		}
+	}
+	if known != "" && nrt == ngt {
+		v.Known = known
+	} else if id := reexecutedThrowingCJS(c, rt, gt); id != "" {
+		v.Known = id
 	}
 	return v
+}
+
+// reexecutedThrowingCJS recognises known finding C02-throwing-cjs-reexecuted: the body of a CommonJS
+// module that throws at top level runs once natively and again in the bundle for each later importer.
+func reexecutedThrowingCJS(c Case, rt, gt string) string {
+	for name, src := range c.Files {
+		if !strings.HasSuffix(name, ".cjs") || !strings.Contains(src, "throw new TypeError(\"boom") {
+			continue
+		}
+		start := `s:"` + strings.TrimSuffix(name, ".cjs") + `:start"`
+		if strings.Count(rt, start) == 1 && strings.Count(gt, start) > 1 {
+			return "C02-throwing-cjs-reexecuted"
+		}
+	}
+	return ""
+}
+
+var keyListRe = regexp.MustCompile(`s:"[A-Za-z0-9_$]+(,[A-Za-z0-9_$]+)*"`)
+
+var starFromCJSRe = regexp.MustCompile(`export \* from "\./m(\d+)\.cjs"`)
+
+// cjsStarNames lists the export names of the CommonJS modules that some module of the case re-exports with
+// `export *` (they are generated as aN, cN, fN plus `__esModule`).
+func cjsStarNames(c Case) map[string]bool {
+	out := map[string]bool{"__esModule": true}
+	for _, src := range c.Files {
+		for _, m := range starFromCJSRe.FindAllStringSubmatch(src, -1) {
+			for _, p := range []string{"a", "c", "f"} {
+				out[p+m[1]] = true
+			}
+		}
+	}
+	return out
+}
+
+// dropNames removes the given names from every comma-separated key list logged in a trace.
+func dropNames(tr string, names map[string]bool) string {
+	return keyListRe.ReplaceAllStringFunc(tr, func(m string) string {
+		parts := strings.Split(m[3:len(m)-1], ",")
+		var keep []string
+		for _, p := range parts {
+			if !names[p] {
+				keep = append(keep, p)
+			}
+		}
+		return `s:"` + strings.Join(keep, ",") + `"`
+	})
 }
 
 // When an ES module imports (statically or dynamically) a CommonJS module that throws, Node reports the
